@@ -32,6 +32,10 @@ PSameOrBig(a, b) == PSame(a, b) \/ (a.alive /\ b.alive /\ a.n = b.n /\ ~Cheap(UH
 SubD(x, y) == QContains(y.H, x.V)                        \* disjunct x contained in disjunct y
 \* x "contains" y, definition: each (non-empty) disjunct of y is contained in a disjunct of x
 Entails(x, y) == \A j \in 1..Len(y.D) : QEmpty(y.D[j].V) \/ \E i \in 1..Len(x.D) : SubD(y.D[j], x.D[i])
+\* the same without the exemption of empty disjuncts: an undetected-empty disjunct of y with no disjunct of x to hold it makes the library
+\* answer false (it compares disjunct by disjunct without reducing); where the two readings differ the answer is not asserted
+EntailsLit(x, y) == \A j \in 1..Len(y.D) : \E i \in 1..Len(x.D) : SubD(y.D[j], x.D[i])
+AmbEmpty(x, y) == Entails(x, y) # EntailsLit(x, y)
 \* each disjunct of y is STRICTLY contained in a disjunct of x
 StrictlyEntails(x, y) == \A j \in 1..Len(y.D) : \E i \in 1..Len(x.D) : SubD(y.D[j], x.D[i]) /\ ~SubD(x.D[i], y.D[j])
 UEmpty(p) == \A i \in 1..Len(p.D) : QEmpty(p.D[i].V)
@@ -101,9 +105,10 @@ PObs(e, d, s, m) ==
   ELSE IF op = "is_universe" THEN (IF ~Cheap(<<<<>>>>, AA) THEN "und" ELSE V1(e.rb = Covers(<<<<>>>>, AA, m), "C09:is_universe"))
   ELSE IF op = "is_bounded" THEN V1(e.rb = (\A i \in 1..Len(d.D) : QBounded(d.D[i].V)), "C09:is_bounded")
   ELSE IF op = "OK" THEN V1(e.rb, "C09:OK()")
-  ELSE IF op = "contains" THEN (IF e.rb # Entails(d, s) THEN "C09:contains-is-not-the-entailment-of-disjuncts"
+  ELSE IF op = "contains" THEN (IF AmbEmpty(d, s) THEN "und" ELSE IF e.rb # Entails(d, s) THEN "C09:contains-is-not-the-entailment-of-disjuncts"
                                 ELSE IF ~e.rb \/ ~Cheap(BB, AA) THEN "ok" ELSE V1(Covers(BB, AA, m), "C09:containment-without-geometric-covering"))
   ELSE IF op = "strictly_contains" THEN (IF UEmpty(s) \/ UEmpty(d) THEN "und" ELSE V1(e.rb = StrictlyEntails(d, s), "C09:strictly_contains"))
+  ELSE IF op \in {"equals", "not_equals"} /\ d.n = s.n /\ (AmbEmpty(d, s) \/ AmbEmpty(s, d)) THEN "und"
   ELSE IF op = "equals" THEN V1(e.rb = (d.n = s.n /\ Entails(d, s) /\ Entails(s, d)), "C09:equals")
   ELSE IF op = "not_equals" THEN V1(e.rb = ~(d.n = s.n /\ Entails(d, s) /\ Entails(s, d)), "C09:not_equals")
   ELSE IF op = "is_disjoint_from" THEN V1(e.rb = (\A i \in 1..Len(AA), j \in 1..Len(BB) : HEmpty(AA[i] \o BB[j], m)), "C09:is_disjoint_from")
